@@ -51,12 +51,52 @@ def iterateFinal (p : Prog) (n : Nat) : Prog :=
 def maskedStep (p : Prog) (post : Expr) : Prog :=
   .dimap (.exprs [.var 1, .var 0]) (.mask p) post
 
-/-- `masked_iterate_final`: post = (masked_retval.value, None); then .scan().map(lambda ret: ret[0]). -/
+/-- `masked_iterate_final`: post(args = (state, flag), _, masked_retval) =
+    (where(flag, masked_retval.value, state), None); then .scan().map(lambda ret: ret[0]). -/
 def maskedIterateFinal (p : Prog) : Prog :=
-  map (.scan (maskedStep p (.tup [.unmask (.var 2), .tup []])) none) (.proj (.var 2) 0)
+  map (.scan (maskedStep p
+    (.tup [.sel (.proj (.var 0) 1) (.unmask (.var 2)) (.proj (.var 0) 0), .tup []])) none) (.proj (.var 2) 0)
 
 /-- `masked_iterate`: post = (v, v) with v = masked_retval.value; then .scan().dimap(post=prepend_initial_acc). -/
 def maskedIterate (p : Prog) : Prog :=
   .dimap .id (.scan (maskedStep p (.tup [.unmask (.var 2), .unmask (.var 2)])) none) prependInitialAcc
 
 end GenjaxVerif.GFI.Derived
+
+namespace GenjaxVerif.GFI.Derived
+open GenjaxVerif
+
+/-- `gen_fn(*stored)` / `partial_apply(*stored)`: a `GenerativeFunctionClosure` calls the wrapped
+    function with the stored arguments prepended to the `nargs` call-time arguments. -/
+def closure (p : Prog) (stored : List Int) (nargs : Nat) : Prog :=
+  .dimap (.exprs (stored.map Expr.lit ++ (List.range nargs).map Expr.var)) p retId
+
+end GenjaxVerif.GFI.Derived
+
+namespace GenjaxVerif.GFI
+open GenjaxVerif
+
+/-- `propose(key, args) = (choices, score, retval)` of `simulate(key, args)`. -/
+def propose (ds : DistSem) (p : Prog) (key : KeyPath) (args : Val) : Except Err (CMap × Int × Val) :=
+  (simulate ds p key args).map fun t => (t.choices, t.score, t.ret)
+
+/-- `importance = generate`. -/
+def importance (ds : DistSem) (p : Prog) (key : KeyPath) (c : CMap) (args : Val) : Except Err (Trace × Int) :=
+  generate ds p key c args
+
+/-- `EmptyRequest.edit`: the identity with weight 0 when no argument is tagged changed, an empty
+    `Update` otherwise. -/
+def emptyRequest (ds : DistSem) (p : Prog) (key : KeyPath) (t : Trace) (args : Val) (noChange : Bool)
+    (changed : Bool := false) : Except Err Res :=
+  if noChange then .ok ⟨t, 0, [], true⟩ else update ds p key t [] args changed
+
+/-- `get_subtrace(addr)` / `get_inner_trace`: static traces look the address up; switch, mask and
+    dimap traces delegate to their inner trace. -/
+def Trace.subtrace : Trace → List String → Option Trace
+  | .static _ _ subs, a => lookupSub subs a
+  | .switch _ _ sub, a => sub.subtrace a
+  | .mask _ inner, a => inner.subtrace a
+  | .dimap _ _ inner, a => inner.subtrace a
+  | _, _ => none
+
+end GenjaxVerif.GFI
